@@ -132,6 +132,16 @@ pub fn productions() -> Vec<Prod> {
         B "enum_empty"   "+\n+ ‹M›";
         B "list_nest_empty" "- ‹M›\n  -";
         B "heading_empty" "=\n‹M›";
+        // an item that starts on the line of another item's marker: its continuation lines are
+        // indented relative to its own marker, whose column depends on the width of the outer marker
+        B "list_list"    "- - ‹M›\n    ‹M›";
+        B "list_list3"   "- - - ‹M›\n      ‹M›\n  ‹M›";
+        B "enum_wide_list" "10. - ‹M›\n      ‹M›";
+        B "enum_wide_enum" "10. 1. ‹M›\n       ‹M›\n    2. ‹M›";
+        B "list_enum_same" "- 1. ‹M›\n     ‹M›";
+        B "term_list_same" "/ ‹M›: - ‹M›\n         ‹M›";
+        // a term that ends with a backslash: the colon must not become an escape
+        B "term_bs"      "/ ‹M› \\ : ‹M›";
         // ---------------- inline markup
         M "words"        "foo bar";
         M "seq_sp"       "‹M› ‹M›";
@@ -231,6 +241,9 @@ pub fn productions() -> Vec<Prod> {
         E "eq_label"     "‹E› == <lab>";
         E "destruct_assign" "(a, b) = ‹E›";
         E "destruct_swap" "(a, b) = (b, a)";
+        // a float that ends with a dot in front of a field access / method call
+        E "float_dot_field" "1. .f";
+        E "float_dot_call" "1. .f(‹A›)";
         E "field"        "‹E›.f";
         E "field2"       "‹E›.f.g";
         E "call0"        "‹E›()";
@@ -794,6 +807,7 @@ pub const FORMS: &[Form] = &[
     Form { name: "bc_blank", text: "/*c1\n\n    d*/" },
     Form { name: "bc_tab", text: "/*c1\n\td\n  e*/" },
     Form { name: "bc_uni", text: "/*c1\n\u{3000}d\n\u{a0} e*/" },
+    Form { name: "bc_tab_line", text: "/*c1\n\t\n     d*/" },
     Form { name: "off_tight", text: "/*@typstyle off*/" },
     Form { name: "off_reason", text: "// @typstyle off: aligned by hand\n" },
     Form { name: "off_mid", text: "/* keep, @typstyle off, please */" },
@@ -813,12 +827,12 @@ pub const FORMS_WS: &[&str] = &["none", "sp", "sp2", "tab", "nl", "nl2", "nl4", 
 /// every line terminator of Typst that is not LF, alone in a gap
 pub const FORMS_NEWLINES: &[&str] = &["crlf", "cr", "ls", "ff", "vt", "nel", "ps", "sp_ff_sp"];
 pub const FORMS_COMMENT: &[&str] = &[
-    "bc", "bc_sp", "lc", "lc_sp", "nl_lc", "bc_ml", "bc_star", "lc_lc", "bc_bc", "nl_bc_nl", "off_bc", "off_lc", "bc_ws_line", "bc_blank", "bc_tab", "bc_uni",
+    "bc", "bc_sp", "lc", "lc_sp", "nl_lc", "bc_ml", "bc_star", "lc_lc", "bc_bc", "nl_bc_nl", "off_bc", "off_lc", "bc_ws_line", "bc_blank", "bc_tab", "bc_uni", "bc_tab_line",
 ];
 pub const FORMS_DIRECTIVE: &[&str] = &["off_bc", "off_lc", "off_tight", "off_reason", "off_mid"];
 pub const FORMS_ALL: &[&str] = &[
     "none", "sp", "sp2", "tab", "nl", "nl2", "nl4", "nl_sp", "crlf", "cr", "ls", "bc", "bc_sp", "lc", "lc_sp", "nl_lc",
-    "bc_ml", "bc_star", "lc_lc", "bc_bc", "nl_bc_nl", "off_bc", "off_lc", "nl_sp12", "bc_ws_line", "bc_blank", "bc_tab", "bc_uni",
+    "bc_ml", "bc_star", "lc_lc", "bc_bc", "nl_bc_nl", "off_bc", "off_lc", "nl_sp12", "bc_ws_line", "bc_blank", "bc_tab", "bc_uni", "bc_tab_line",
     "ff", "vt", "nel", "ps", "sp_ff_sp",
 ];
 pub const FORMS_QUICK: &[&str] = &["nl", "lc", "bc", "none", "nl2", "sp", "nl_lc", "bc_ml", "lc_sp", "bc_sp", "nl4", "cr"];
